@@ -20,7 +20,7 @@ RULE = ("histories of 4-22 commands issued on a real cashews.backends.redis.Redi
         "in-process server stand-in: set (plain / only-if-absent / only-if-present, with and without TTL), set_many, get, get_many, delete, delete_many, "
         "exists, expire, get_expire, incr with and without TTL, set_lock, unlock (owner / foreign token), scan, delete_match, get_match ('*' patterns), "
         "set_add (with / without TTL), set_remove, set_pop, get_bits, incr_bits (sizes 1-4, saturating), slice_incr, clear, get_keys_count, ping; virtual "
-        "clock advances of 0-3 s in 1/8 s steps between commands (so TTLs lapse); the server is switched down / up at random positions (every "
+        "clock advances of 0-3 s in 1/8 s steps between commands (so TTLs lapse); the server is switched down / up at random positions - an outage shows as a redis ConnectionError, a redis TimeoutError, a bare OSError or asyncio.TimeoutError - (every "
         "position of short histories in the thorough tier); after every command the stand-in's whole keyspace is dumped. A tenth more histories drive one sliding window with one period at non-decreasing "
         "instants whose gaps are 0, 1, period-1, period, period+1 (earlier hits exactly on the window's edges). Second stream: every decorator "
         "(cache, early, soft, hit, failover, locked with and without waiting, thunder-protected, rate_limit, slice_rate_limit, circuit_breaker, bloom, iterator) stacked on the backend "
@@ -81,7 +81,7 @@ def _rand_case(rng, maxlen=22):
     for _ in range(n):
         if rng.random() < p_switch: down = not down
         hist.append([rng.choice([0, 0, 0, 1, 2, 4, 8, 9, 20]), down, _rand_cmd(rng)])
-    return {"kind": "history", "sup": rng.random() < 0.7, "hist": hist}
+    return {"kind": "history", "sup": rng.random() < 0.7, "hist": hist, "outage": rng.choice(["connection", "connection", "timeout", "oserror", "aio_timeout"])}
 
 
 def _window_case(rng):
@@ -117,6 +117,12 @@ def gen_cases(rng, tier):
                     h = [[adv, (i >= pos and (back is None or i < pos + back)), c] for i, (adv, _, c) in enumerate(base["hist"])]
                     cases.append({"kind": "history", "sup": base["sup"], "hist": h})
     return cases
+
+
+def _outage_exc(kind):
+    """the exception class an unreachable server shows as: redis-py's ConnectionError / TimeoutError, a bare OSError, asyncio.TimeoutError"""
+    import redis.exceptions as rx
+    return {"timeout": rx.TimeoutError, "oserror": ConnectionResetError, "aio_timeout": asyncio.TimeoutError}.get(kind)
 
 
 def _px(ttl):
@@ -160,6 +166,7 @@ def _run_history(case):
         for adv, down, c in case["hist"]:
             if adv: await asyncio.sleep(adv * 0.125)
             srv.down = bool(down)
+            srv.down_exc = _outage_exc(case.get("outage"))
             op = c[0]
             try:
                 if op == "set": r = ["bool", bool(await be.set(c[1], dec(c[2]), expire=c[3] or None, exist=c[4]))]
@@ -262,6 +269,7 @@ def _run_decor(case):
         pairs, raised = [], None
         for i in range(case["calls"]):
             srv.down = i >= case["down_from"]
+            srv.down_exc = _outage_exc(["connection", "timeout", "oserror", "aio_timeout"][(case["down_from"] + len(d)) % 4])
             x = i % 2 if d not in ("bloom", "dual_bloom") else i
             before = n["calls"]
             try:
